@@ -1,6 +1,6 @@
 (* Proofs about model/Cast.v (numeric casts). *)
 From Coq Require Import NArith ZArith List Bool Lia ZifyBool.
-From GV Require Import model.Cast.
+From GV Require Import model.Cast gen.TablesCast.
 Import ListNotations.
 Open Scope Z_scope.
 Ltac Zify.zify_post_hook ::= Z.div_mod_to_equations.
@@ -94,6 +94,9 @@ Qed.
 Lemma unchecked_true_ok : forall t x y, unchecked true t x = Ok y -> y = x /\ in_range t x = true.
 Proof. intros t x y. unfold unchecked. destruct (in_range t x); intros H; inversion H; auto. Qed.
 
+Lemma unchecked_in_range : forall oc t x, in_range t x = true -> unchecked oc t x = Ok x.
+Proof. intros oc t x H. unfold unchecked. rewrite H. reflexivity. Qed.
+
 Lemma checked_ok : forall t x y, checked t x = Ok y -> y = x /\ in_range t x = true.
 Proof. intros t x y. unfold checked. destruct (in_range t x); intros H; inversion H; auto. Qed.
 
@@ -134,70 +137,112 @@ Qed.
 
 Definition std_dty (d : dty) : Prop := d = D64 \/ d = D128.
 
-Lemma validate_precision_sound : forall d value p, std_dty d -> 0 <= p ->
-  validate_precision true d value p = Ok tt -> Z.abs value < 10 ^ p.
+(* the primitive holds every value of the widest precision, and is symmetric up to one *)
+Lemma std_dty_facts : forall d, std_dty d ->
+  std_width (i_bits (d_prim d)) /\ 10 ^ d_maxp d <= imax (d_prim d) /\ imin (d_prim d) = - imax (d_prim d) - 1
+  /\ imax (d_prim d) < 10 ^ 40 /\ 0 <= d_maxp d <= 38.
 Proof.
-  intros d value p Hd Hp. unfold validate_precision.
-  destruct (d_maxp d <? p); [discriminate|].
-  destruct (value =? 0) eqn:E0.
-  - intros _. assert (0 < 10 ^ p) by (apply Z.pow_pos_nonneg; lia). lia.
-  - destruct (unchecked true (d_prim d) (Z.abs value)) as [a| |] eqn:Eu; cbn [obind]; try discriminate.
-    apply unchecked_true_ok in Eu. destruct Eu as [-> Hr].
-    destruct (Z.abs value <=? 0); [discriminate|].
-    destruct (p <? ndigits (Z.abs value)) eqn:En; [discriminate|]. intros _.
-    unfold ndigits in En. apply (ndigits_fuel_spec 40); [lia| |lia].
-    assert (Z.abs value <= 2 ^ 127) as Hb.
-    { destruct Hd as [-> | ->]; unfold in_range, imax, imin, D64, D128, I64, I128 in Hr; cbn in Hr; lia. }
-    assert (2 ^ 127 < 10 ^ Z.of_nat 40) by (vm_compute; reflexivity). lia.
+  intros d [-> | ->]; unfold std_width; cbn [d_prim d_maxp D64 D128 I64 I128 i_bits]; repeat split; auto;
+    try (vm_compute; congruence).
 Qed.
 
-(* integer -> DECIMAL(p,s): the result fits the precision and is the exactly scaled value *)
-Lemma int_to_decimal_fits_or_error : forall s d p sc v r,
-  std_width (i_bits s) -> std_dty d -> in_range s v = true -> 0 <= p -> 0 <= sc ->
-  int_to_decimal true s d p sc v = Ok r ->
-  Z.abs r < 10 ^ p /\ r = v * 10 ^ sc.
+Lemma in_range_iff t x : in_range t x = true <-> imin t <= x <= imax t.
+Proof. unfold in_range. lia. Qed.
+
+Lemma pow10_le_maxp : forall d p, std_dty d -> 0 <= p <= d_maxp d -> 0 < 10 ^ p /\ 10 ^ p <= imax (d_prim d).
 Proof.
-  intros s d p sc v r Hs Hd Hr Hp Hsc. unfold int_to_decimal.
-  destruct (pow_in true I32 10 (Z.abs_nat sc)) as [a32| |] eqn:Ep; cbn [obind]; try discriminate.
-  pose proof (pow_in_true_ok _ _ _ _ Ep) as Ha. rewrite Zabs2Nat.id_abs, Z.abs_eq in Ha by lia.
-  assert (Hr32 : in_range I32 a32 = true).
-  { destruct (Z.abs_nat sc) as [|k] eqn:Ek; cbn [pow_in] in Ep.
-    - inversion Ep. reflexivity.
-    - destruct (pow_in true I32 10 k); cbn [obind] in Ep; try discriminate.
-      apply unchecked_true_ok in Ep. destruct Ep as [-> Hx]. exact Hx. }
-  assert (Hdw : std_width (i_bits (d_prim d))) by (destruct Hd as [-> | ->]; cbn; unfold std_width; auto).
-  rewrite (cast_int_exact_or_error I32 (d_prim d) a32) by (auto; unfold std_width; cbn; auto).
-  unfold int_spec at 1. destruct (in_range (d_prim d) a32); cbn [obind]; try discriminate.
-  rewrite (cast_int_exact_or_error s (d_prim d) v Hs Hdw Hr).
-  unfold int_spec. destruct (in_range (d_prim d) v); cbn [obind]; try discriminate.
+  intros d p Hd Hp. destruct (std_dty_facts d Hd) as [_ [Hm _]].
+  assert (10 ^ p <= 10 ^ d_maxp d) by (apply Z.pow_le_mono_r; lia).
+  assert (0 < 10 ^ p) by (apply Z.pow_pos_nonneg; lia). lia.
+Qed.
+
+(* validate_precision as repaired: total (no panic for any value of the primitive, MIN included,
+   with or without overflow checks) and exact *)
+Lemma validate_precision_spec : forall oc d value p, std_dty d -> in_range (d_prim d) value = true ->
+  0 <= p <= d_maxp d ->
+  validate_precision oc d value p = (if Z.abs value <? 10 ^ p then Ok tt else Err).
+Proof.
+  intros oc d value p Hd Hr Hp. destruct (std_dty_facts d Hd) as [_ [Hm [Hs [H40 Hmp]]]].
+  destruct (pow10_le_maxp d p Hd Hp) as [Hpos Hle]. apply in_range_iff in Hr.
+  unfold validate_precision. replace (d_maxp d <? p) with false by lia.
+  destruct (value =? 0) eqn:E0; [replace (Z.abs value <? 10 ^ p) with true by lia; reflexivity|].
+  destruct (value =? imin (d_prim d)) eqn:Em.
+  - assert (p < 2 ^ 32 - 1) by (change (2 ^ 32 - 1) with 4294967295; lia).
+    replace (p <? 2 ^ 32 - 1) with true by lia. replace (Z.abs value <? 10 ^ p) with false by lia. reflexivity.
+  - rewrite unchecked_in_range by (apply in_range_iff; lia). cbn [obind].
+    replace (Z.abs value <=? 0) with false by lia.
+    pose proof (ndigits_fuel_spec 40 (Z.abs value) p ltac:(lia) ltac:(change (Z.of_nat 40) with 40; lia)) as Hn.
+    unfold ndigits. destruct (Z.abs value <? 10 ^ p) eqn:El.
+    + replace (p <? ndigits_fuel 40 (Z.abs value)) with false by lia. reflexivity.
+    + replace (p <? ndigits_fuel 40 (Z.abs value)) with true by lia. reflexivity.
+Qed.
+
+Lemma validate_precision_total : forall oc d value p, std_dty d -> in_range (d_prim d) value = true ->
+  validate_precision oc d value p <> Panic.
+Proof.
+  intros oc d value p Hd Hr. destruct (std_dty_facts d Hd) as [_ [_ [Hs _]]]. apply in_range_iff in Hr.
+  unfold validate_precision. destruct (d_maxp d <? p); [discriminate|].
+  destruct (value =? 0) eqn:E0; [discriminate|].
+  destruct (value =? imin (d_prim d)) eqn:Em; [destruct (p <? 2 ^ 32 - 1); discriminate|].
+  rewrite unchecked_in_range by (apply in_range_iff; lia). cbn [obind].
+  replace (Z.abs value <=? 0) with false by lia. destruct (p <? ndigits (Z.abs value)); discriminate.
+Qed.
+
+Lemma validate_precision_sound : forall oc d value p, std_dty d -> in_range (d_prim d) value = true -> 0 <= p ->
+  validate_precision oc d value p = Ok tt -> Z.abs value < 10 ^ p.
+Proof.
+  intros oc d value p Hd Hr Hp H. destruct (std_dty_facts d Hd) as [_ [_ [_ [_ Hmp]]]].
+  destruct (Z_le_gt_dec p (d_maxp d)) as [Hle|Hgt].
+  - rewrite validate_precision_spec in H by (auto; lia). destruct (Z.abs value <? 10 ^ p) eqn:E; [lia|discriminate].
+  - unfold validate_precision in H. replace (d_maxp d <? p) with true in H by lia. discriminate.
+Qed.
+
+Lemma not_in_range_big : forall d x, std_dty d -> in_range (d_prim d) x = false -> imax (d_prim d) < Z.abs x.
+Proof.
+  intros d x Hd H. destruct (std_dty_facts d Hd) as [_ [_ [Hs _]]]. unfold in_range in H. lia.
+Qed.
+
+(* integer -> DECIMAL(p,s), every scale 0..p, every value of every integer type: exactly
+   v * 10^s when that fits the precision, otherwise an error — never a panic *)
+Lemma int_to_decimal_exact_or_error : forall oc s d p sc v,
+  std_width (i_bits s) -> std_dty d -> in_range s v = true -> 0 <= sc <= p -> p <= d_maxp d ->
+  int_to_decimal oc s d p sc v = (if Z.abs (v * 10 ^ sc) <? 10 ^ p then Ok (v * 10 ^ sc) else Err).
+Proof.
+  intros oc s d p sc v Hs Hd Hr Hsc Hp. destruct (std_dty_facts d Hd) as [Hw [Hm [Hsym _]]].
+  destruct (pow10_le_maxp d sc Hd ltac:(lia)) as [Hpos Hle].
+  destruct (pow10_le_maxp d p Hd ltac:(lia)) as [Hppos Hple].
+  unfold int_to_decimal, checked_pow. rewrite Z.abs_eq by lia.
+  unfold checked at 1. rewrite (proj2 (in_range_iff _ _)) by lia. cbn [obind].
+  rewrite (cast_int_exact_or_error s (d_prim d) v Hs Hw Hr). unfold int_spec.
+  assert (Hmul : Z.abs v <= Z.abs (v * 10 ^ sc)) by (rewrite Z.abs_mul, (Z.abs_eq (10 ^ sc)) by lia; nia).
+  destruct (in_range (d_prim d) v) eqn:Ev; cbn [obind].
+  2:{ pose proof (not_in_range_big d v Hd Ev). replace (Z.abs (v * 10 ^ sc) <? 10 ^ p) with false by lia. reflexivity. }
+  assert (Hval : forall val, val = v * 10 ^ sc ->
+     obind (checked (d_prim d) val) (fun val0 => obind (validate_precision oc d val0 p) (fun _ => Ok val0))
+     = (if Z.abs val <? 10 ^ p then Ok val else Err)).
+  { intros val _. unfold checked. destruct (in_range (d_prim d) val) eqn:Evv; cbn [obind].
+    - rewrite validate_precision_spec by (auto; lia). destruct (Z.abs val <? 10 ^ p); reflexivity.
+    - pose proof (not_in_range_big d val Hd Evv). replace (Z.abs val <? 10 ^ p) with false by lia. reflexivity. }
   destruct (0 <? sc) eqn:Esc.
-  - destruct (checked (d_prim d) (v * a32)) as [val| |] eqn:Ec; cbn [obind]; try discriminate.
-    apply checked_ok in Ec. destruct Ec as [-> _].
-    destruct (validate_precision true d (v * a32) p) as [[]| |] eqn:Ev; cbn [obind]; try discriminate.
-    intros H; inversion H; subst r. split; [apply (validate_precision_sound d _ p Hd Hp Ev)|rewrite Ha; reflexivity].
-  - assert (sc = 0) by lia. subst sc. cbn in Ha. subst a32.
-    unfold checked_div. cbn [Z.eqb]. rewrite Z.quot_1_r.
-    destruct (checked (d_prim d) v) as [val| |] eqn:Ec; cbn [obind]; try discriminate.
-    apply checked_ok in Ec. destruct Ec as [-> _].
-    destruct (validate_precision true d v p) as [[]| |] eqn:Ev; cbn [obind]; try discriminate.
-    intros H; inversion H; subst r. split; [apply (validate_precision_sound d _ p Hd Hp Ev)|cbn; lia].
+  - apply Hval. reflexivity.
+  - assert (sc = 0) by lia. subst sc. change (10 ^ 0) with 1 in *. unfold checked_div. cbn [Z.eqb].
+    rewrite Z.quot_1_r. rewrite Z.mul_1_r. apply Hval. lia.
 Qed.
 
-Example int_to_decimal_sat : int_to_decimal true (mk_ity true 32) D64 5 2 123 = Ok 12300.
-Proof. vm_compute. reflexivity. Qed.
+Example int_to_decimal_sat : int_to_decimal true (mk_ity true 32) D64 5 2 123 = Ok 12300
+  /\ int_to_decimal true (mk_ity true 32) D64 18 10 1 = Ok 10000000000
+  /\ int_to_decimal true I64 D64 18 0 (- 2 ^ 63) = Err.
+Proof. vm_compute. repeat split; reflexivity. Qed.
 
 (* float -> DECIMAL(p,s): the result fits the precision *)
-Lemma float_to_decimal_fits_or_error : forall f d p sc bits r, std_dty d -> 0 <= p ->
-  float_to_decimal true f d p sc bits = Ok r -> Z.abs r < 10 ^ p.
+Lemma float_to_decimal_fits_or_error : forall oc f d p sc bits r, std_dty d -> 0 <= p ->
+  float_to_decimal oc f d p sc bits = Ok r -> Z.abs r < 10 ^ p.
 Proof.
-  intros f d p sc bits r Hd Hp. unfold float_to_decimal.
-  destruct (pow_in true I32 10 (Z.abs_nat sc)) as [a32| |]; cbn [obind]; try discriminate.
-  destruct (decode f bits) as [|n1|n1 m1 e1]; destruct (round_float f (a32 <? 0) (Z.abs a32) 0) as [|n2|n2 m2 e2];
-    try discriminate.
-  destruct (round_float f (xorb n1 n2) (m1 * m2) (e1 + e2)) as [|n3|n3 m3 e3]; try discriminate.
-  destruct (in_range (d_prim d) _); try discriminate.
-  destruct (validate_precision true d _ p) as [[]| |] eqn:Ev; cbn [obind]; try discriminate.
-  intros H; inversion H; subst r. apply (validate_precision_sound d _ p Hd Hp Ev).
+  intros oc f d p sc bits r Hd Hp. unfold float_to_decimal.
+  destruct (fmul f (decode f bits) _) as [|n3|n3 m3 e3]; try discriminate.
+  destruct (in_range (d_prim d) _) eqn:Er; try discriminate.
+  destruct (validate_precision oc d _ p) as [[]| |] eqn:Ev; cbn [obind]; try discriminate.
+  intros H; inversion H; subst r. apply (validate_precision_sound oc d _ p Hd Er Hp Ev).
 Qed.
 
 (* decimal -> decimal, downscale: round half away from zero *)
@@ -215,50 +260,111 @@ Proof.
     replace (2 * - v + 2 * h) with (2 * (- v + h)) by lia. rewrite Z.div_mul_cancel_l by lia. lia.
 Qed.
 
-Lemma rescale_rounds_half_away : forall d1 d2 s1 p2 s2 v r,
-  std_dty d1 -> std_dty d2 -> in_range (d_prim d1) v = true -> s2 < s1 ->
-  decimal_to_decimal true d1 d2 s1 p2 s2 v = Ok r ->
-  r = rha_div v (10 ^ (s1 - s2)).
+(* the arithmetic of DecimalToDecimal::cast between NumCast and validate_precision *)
+Definition rescale_body (t : ity) (diff amt rounding v : Z) : outcome Z :=
+  if diff <? 0 then checked t (v * amt)
+  else if 0 <? diff then
+    obind (checked t (v + (if 0 <=? v then rounding else - rounding))) (fun w => checked_div t w amt)
+  else Ok v.
+
+Lemma rescale_body_range : forall t diff amt rounding v r, in_range t v = true ->
+  rescale_body t diff amt rounding v = Ok r -> in_range t r = true.
 Proof.
-  intros d1 d2 s1 p2 s2 v r Hd1 Hd2 Hr Hs. unfold decimal_to_decimal.
-  destruct (pow_in true (d_prim d2) 10 (Z.abs_nat (s1 - s2))) as [amt| |] eqn:Ep; cbn [obind]; try discriminate.
-  pose proof (pow_in_true_ok _ _ _ _ Ep) as Ha. rewrite Zabs2Nat.id_abs, Z.abs_eq in Ha by lia.
-  assert (Hw1 : std_width (i_bits (d_prim d1))) by (destruct Hd1 as [-> | ->]; cbn; unfold std_width; auto).
-  assert (Hw2 : std_width (i_bits (d_prim d2))) by (destruct Hd2 as [-> | ->]; cbn; unfold std_width; auto).
-  rewrite (cast_int_exact_or_error (d_prim d1) (d_prim d2) v Hw1 Hw2 Hr).
-  unfold int_spec. destruct (in_range (d_prim d2) v); cbn [obind]; try discriminate.
-  replace (s1 - s2 <? 0) with false by lia. replace (0 <? s1 - s2) with true by lia.
-  set (k := s1 - s2) in *.
-  assert (Hamt : amt = 2 * (5 * 10 ^ (k - 1))).
-  { rewrite Ha. replace k with (Z.succ (k - 1)) at 1 by lia. rewrite Z.pow_succ_r by lia. lia. }
-  assert (Hh : 0 < 5 * 10 ^ (k - 1)) by (assert (0 < 10 ^ (k - 1)) by (apply Z.pow_pos_nonneg; lia); lia).
-  set (h := 5 * 10 ^ (k - 1)) in *.
-  assert (Hq : Z.quot amt 2 = h) by (rewrite Hamt, Z.mul_comm, Z.quot_mul by lia; reflexivity).
-  rewrite Hq.
-  destruct (checked (d_prim d2) (v + (if 0 <=? v then h else - h))) as [w| |] eqn:Ec; cbn [obind]; try discriminate.
-  apply checked_ok in Ec. destruct Ec as [-> _].
-  unfold checked_div. replace (amt =? 0) with false by lia.
-  intros H. apply checked_ok in H. destruct H as [-> _].
-  rewrite <- Ha, Hamt. apply quot_half_away. exact Hh.
+  intros t diff amt rounding v r Hv. unfold rescale_body.
+  destruct (diff <? 0).
+  - intros H. apply checked_ok in H. destruct H as [-> Hx]. exact Hx.
+  - destruct (0 <? diff).
+    + destruct (checked t (v + (if 0 <=? v then rounding else - rounding))) as [w| |]; cbn [obind]; intros H; try discriminate H.
+      unfold checked_div in H. destruct (amt =? 0); [discriminate H|].
+      apply checked_ok in H. destruct H as [-> Hx]. exact Hx.
+    + intros H. inversion H. subst. exact Hv.
 Qed.
 
-Example rescale_sat : decimal_to_decimal true D64 D64 3 5 2 12345 = Ok 1235 /\ decimal_to_decimal true D64 D64 3 5 2 (-12345) = Ok (-1235).
-Proof. vm_compute. split; reflexivity. Qed.
+Lemma checked_no_panic : forall t x, checked t x <> Panic.
+Proof. intros t x. unfold checked. destruct (in_range t x); discriminate. Qed.
 
-(* full strength "the result respects the target precision" is false for the code as written *)
-Lemma rescale_respects_precision_refuted :
-  exists d1 d2 s1 p2 s2 v r, decimal_to_decimal true d1 d2 s1 p2 s2 v = Ok r /\ 10 ^ p2 <= Z.abs r
-                             /\ rescale_spec s1 p2 s2 v = Err.
-Proof. exists D64, D64, 2, 3, 1, 12345, 1235. vm_compute. repeat split; congruence. Qed.
+Lemma rescale_body_no_panic : forall t diff amt rounding v, rescale_body t diff amt rounding v <> Panic.
+Proof.
+  intros t diff amt rounding v. unfold rescale_body.
+  destruct (diff <? 0); [apply checked_no_panic|].
+  destruct (0 <? diff); [|discriminate].
+  destruct (checked t (v + (if 0 <=? v then rounding else - rounding))) as [w| |] eqn:Ec; cbn [obind]; try discriminate.
+  - unfold checked_div. destruct (amt =? 0); [discriminate|apply checked_no_panic].
+  - exfalso. exact (checked_no_panic _ _ Ec).
+Qed.
 
-(* defects of the same family, each pinned by a closed witness on the faithful model *)
-Lemma int_to_decimal_scale10_panics : int_to_decimal true (mk_ity true 32) D64 18 10 1 = Panic
-  /\ int_to_decimal false (mk_ity true 32) D64 18 10 1 = Ok 1410065408.
-Proof. vm_compute. split; reflexivity. Qed.
+(* decimal -> decimal (any direction): a result is the exactly scaled / half-away rounded value AND
+   respects the target precision; equivalently it is the value of the specification *)
+Lemma rescale_exact_and_respects_precision : forall oc d1 d2 s1 p2 s2 v r,
+  std_dty d1 -> std_dty d2 -> in_range (d_prim d1) v = true -> 0 <= p2 ->
+  decimal_to_decimal oc d1 d2 s1 p2 s2 v = Ok r ->
+  Z.abs r < 10 ^ p2 /\
+  r = (if s1 <=? s2 then v * 10 ^ (s2 - s1) else rha_div v (10 ^ (s1 - s2))).
+Proof.
+  intros oc d1 d2 s1 p2 s2 v r Hd1 Hd2 Hr Hp. unfold decimal_to_decimal, checked_pow.
+  destruct (checked (d_prim d2) (10 ^ Z.abs (s1 - s2))) as [amt| |] eqn:Ep; cbn [obind]; try discriminate.
+  apply checked_ok in Ep. destruct Ep as [Ha _].
+  destruct (std_dty_facts d1 Hd1) as [Hw1 _]. destruct (std_dty_facts d2 Hd2) as [Hw2 _].
+  rewrite (cast_int_exact_or_error (d_prim d1) (d_prim d2) v Hw1 Hw2 Hr).
+  unfold int_spec. destruct (in_range (d_prim d2) v) eqn:Ev2; cbn [obind]; try discriminate.
+  match goal with |- obind ?X _ = _ -> _ => destruct X as [r0| |] eqn:Ex end; cbn [obind]; try discriminate.
+  destruct (validate_precision oc d2 r0 p2) as [[]| |] eqn:Ev; try discriminate.
+  intros H; inversion H; subst r0. clear H.
+  assert (Hrr : in_range (d_prim d2) r = true)
+    by exact (rescale_body_range (d_prim d2) (s1 - s2) amt (if 0 <? s1 - s2 then Z.quot amt 2 else 0) v r Ev2 Ex).
+  split; [apply (validate_precision_sound oc d2 r p2 Hd2 Hrr Hp Ev)|].
+  destruct (s1 - s2 <? 0) eqn:E1.
+  - apply checked_ok in Ex. destruct Ex as [-> _]. replace (s1 <=? s2) with true by lia.
+    rewrite Ha. rewrite Z.abs_neq by lia. f_equal. f_equal. lia.
+  - destruct (0 <? s1 - s2) eqn:E2.
+    + replace (s1 <=? s2) with false by lia. rewrite Z.abs_eq in Ha by lia.
+      set (k := s1 - s2) in *.
+      assert (Hamt : amt = 2 * (5 * 10 ^ (k - 1))).
+      { rewrite Ha. replace k with (Z.succ (k - 1)) at 1 by lia. rewrite Z.pow_succ_r by lia. lia. }
+      assert (Hh : 0 < 5 * 10 ^ (k - 1)) by (assert (0 < 10 ^ (k - 1)) by (apply Z.pow_pos_nonneg; lia); lia).
+      set (h := 5 * 10 ^ (k - 1)) in *.
+      assert (Hq : Z.quot amt 2 = h) by (rewrite Hamt, Z.mul_comm, Z.quot_mul by lia; reflexivity).
+      rewrite Hq in Ex.
+      destruct (checked (d_prim d2) (v + (if 0 <=? v then h else - h))) as [w| |] eqn:Ec; cbn [obind] in Ex; try discriminate.
+      apply checked_ok in Ec. destruct Ec as [-> _].
+      unfold checked_div in Ex. replace (amt =? 0) with false in Ex by lia.
+      apply checked_ok in Ex. destruct Ex as [-> _].
+      rewrite <- Ha, Hamt. apply quot_half_away. exact Hh.
+    + inversion Ex; subst. replace (s1 <=? s2) with true by lia. replace (s2 - s1) with 0 by lia. cbn. lia.
+Qed.
 
-Lemma int_to_decimal_min_panics : int_to_decimal true I64 D64 18 0 (- 2 ^ 63) = Panic.
-Proof. vm_compute. reflexivity. Qed.
+Lemma rescale_sound : forall oc d1 d2 s1 p2 s2 v r,
+  std_dty d1 -> std_dty d2 -> in_range (d_prim d1) v = true -> 0 <= p2 ->
+  decimal_to_decimal oc d1 d2 s1 p2 s2 v = Ok r -> rescale_spec s1 p2 s2 v = Ok r.
+Proof.
+  intros oc d1 d2 s1 p2 s2 v r Hd1 Hd2 Hr Hp H.
+  destruct (rescale_exact_and_respects_precision oc d1 d2 s1 p2 s2 v r Hd1 Hd2 Hr Hp H) as [Hlt Heq].
+  unfold rescale_spec. rewrite <- Heq. replace (Z.abs r <? 10 ^ p2) with true by lia. reflexivity.
+Qed.
 
+(* no panic either: the scale factor is a checked power, validate_precision is total *)
+Lemma rescale_never_panics : forall oc d1 d2 s1 p2 s2 v,
+  std_dty d1 -> std_dty d2 -> in_range (d_prim d1) v = true ->
+  decimal_to_decimal oc d1 d2 s1 p2 s2 v <> Panic.
+Proof.
+  intros oc d1 d2 s1 p2 s2 v Hd1 Hd2 Hr. unfold decimal_to_decimal, checked_pow.
+  destruct (checked (d_prim d2) (10 ^ Z.abs (s1 - s2))) as [amt| |] eqn:Ep; cbn [obind]; try discriminate.
+  2:{ unfold checked in Ep. destruct (in_range (d_prim d2) (10 ^ Z.abs (s1 - s2))); discriminate Ep. }
+  destruct (std_dty_facts d1 Hd1) as [Hw1 _]. destruct (std_dty_facts d2 Hd2) as [Hw2 _].
+  rewrite (cast_int_exact_or_error (d_prim d1) (d_prim d2) v Hw1 Hw2 Hr).
+  unfold int_spec. destruct (in_range (d_prim d2) v) eqn:Ev; cbn [obind]; try discriminate.
+  match goal with |- obind ?X _ <> _ => destruct X as [r0| |] eqn:Ex end; cbn [obind]; try discriminate.
+  - pose proof (rescale_body_range (d_prim d2) (s1 - s2) amt (if 0 <? s1 - s2 then Z.quot amt 2 else 0) v r0 Ev Ex) as Hrr.
+    pose proof (validate_precision_total oc d2 r0 p2 Hd2 Hrr) as Hv.
+    destruct (validate_precision oc d2 r0 p2); congruence.
+  - exfalso. exact (rescale_body_no_panic (d_prim d2) (s1 - s2) amt (if 0 <? s1 - s2 then Z.quot amt 2 else 0) v Ex).
+Qed.
+
+Example rescale_sat : decimal_to_decimal true D64 D64 3 5 2 12345 = Ok 1235 /\ decimal_to_decimal true D64 D64 3 5 2 (-12345) = Ok (-1235)
+  /\ decimal_to_decimal true D64 D64 2 3 1 12345 = Err /\ decimal_to_decimal true D128 D64 20 18 0 150000000000000000000 = Err.
+Proof. vm_compute. repeat split; reflexivity. Qed.
+
+(* still open in the current code: Decimal128 -> Decimal64 converts the unscaled value first *)
 Lemma rescale_narrows_before_downscale :
   decimal_to_decimal true D128 D64 5 18 0 9999999999999999999 = Err /\ rescale_spec 5 18 0 9999999999999999999 = Ok 100000000000000.
 Proof. vm_compute. split; reflexivity. Qed.
@@ -267,3 +373,80 @@ Proof. vm_compute. split; reflexivity. Qed.
 Lemma float_to_decimal_double_rounding :
   float_to_decimal true F64 D64 5 2 4607700332757165015 = Ok 112.
 Proof. vm_compute. reflexivity. Qed.
+
+(* ---------- nested casts ---------- *)
+Definition ity_of (x : bool * Z) : ity := mk_ity (fst x) (snd x).
+Definition std_widthb (b : Z) : bool := (b =? 8) || (b =? 16) || (b =? 32) || (b =? 64) || (b =? 128).
+Definition widening (x a : ity) : bool :=
+  std_widthb (i_bits x) && std_widthb (i_bits a) && (imin a <=? imin x) && (imax x <=? imax a).
+Definition safe_flag (x a : ity) : bool :=
+  existsb (fun e => Bool.eqb (i_signed x) (fst (fst e)) && (i_bits x =? snd (fst e))
+                    && Bool.eqb (i_signed a) (fst (snd e)) && (i_bits a =? snd (snd e))) safe_int_casts.
+
+(* every integer cast the current source flags CastFlatten::Safe is a widening (cannot fail) *)
+Lemma safe_table_widening : forallb (fun e => widening (ity_of (fst e)) (ity_of (snd e))) safe_int_casts = true.
+Proof. vm_compute. reflexivity. Qed.
+
+Lemma std_widthb_ok b : std_widthb b = true -> std_width b.
+Proof. unfold std_widthb, std_width. lia. Qed.
+
+Lemma safe_flag_widening : forall x a, safe_flag x a = true -> widening x a = true.
+Proof.
+  intros [xs xb] [as_ ab] H. unfold safe_flag in H. apply existsb_exists in H. destruct H as [e [Hin He]].
+  pose proof (proj1 (forallb_forall _ _) safe_table_widening e Hin) as Hw.
+  cbn [i_signed i_bits] in He. destruct e as [[es eb] [fs fb]]. cbn [fst snd] in *.
+  assert (xs = es /\ xb = eb /\ as_ = fs /\ ab = fb) as [-> [-> [-> ->]]].
+  { repeat (apply andb_true_iff in He; destruct He as [He ?]).
+    repeat match goal with H : Bool.eqb _ _ = true |- _ => apply Bool.eqb_prop in H end. repeat split; auto; lia. }
+  exact Hw.
+Qed.
+
+Lemma widening_cast_ok : forall x a v, widening x a = true -> in_range x v = true ->
+  cast_int x a v = Ok v /\ in_range a v = true /\ std_width (i_bits x) /\ std_width (i_bits a).
+Proof.
+  intros x a v Hw Hr. unfold widening in Hw.
+  repeat (apply andb_true_iff in Hw; destruct Hw as [Hw ?]).
+  pose proof (std_widthb_ok _ Hw) as Hx. pose proof (std_widthb_ok _ H1) as Ha.
+  assert (Hra : in_range a v = true) by (unfold in_range in *; lia).
+  rewrite (cast_int_exact_or_error x a v Hx Ha Hr). unfold int_spec. rewrite Hra. auto.
+Qed.
+
+(* flattening CAST(CAST(x AS A) AS B) to CAST(x AS B): done only when both x -> B and the dropped
+   x -> A are flagged Safe (read from the current source), and then the planned expression computes
+   exactly what the nested one does *)
+Lemma cast_flatten_sound :
+  flatten_requires_direct_safe = Some true /\ flatten_requires_inner_safe = Some true /\
+  (forall x a b v, std_width (i_bits b) -> in_range x v = true ->
+     planned_nested_cast safe_flag x a b v = nested_cast x a b v).
+Proof.
+  split; [reflexivity|]. split; [reflexivity|].
+  intros x a b v Hb Hr. unfold planned_nested_cast, flatten_decision.
+  destruct (safe_flag x b) eqn:Eb; cbn [andb]; [|reflexivity].
+  destruct (safe_flag x a) eqn:Ea; [|reflexivity].
+  destruct (widening_cast_ok x a v (safe_flag_widening x a Ea) Hr) as [Hc [Hra [Hx Ha]]].
+  unfold nested_cast. rewrite Hc. cbn [obind].
+  rewrite (cast_int_exact_or_error x b v Hx Hb Hr), (cast_int_exact_or_error a b v Ha Hb Hra). reflexivity.
+Qed.
+
+Example flatten_sat : safe_flag (mk_ity true 16) (mk_ity true 64) = true /\ safe_flag (mk_ity true 32) (mk_ity true 16) = false
+  /\ planned_nested_cast safe_flag (mk_ity true 32) (mk_ity true 16) (mk_ity true 64) 70000 = Err.
+Proof. vm_compute. repeat split; reflexivity. Qed.
+
+(* ---------- the code before the repairs: closed witnesses of the defects (Module Old) ---------- *)
+Lemma old_rescale_respects_precision_refuted :
+  exists d1 d2 s1 p2 s2 v r, Old.decimal_to_decimal true d1 d2 s1 p2 s2 v = Ok r /\ 10 ^ p2 <= Z.abs r
+                             /\ rescale_spec s1 p2 s2 v = Err.
+Proof. exists D64, D64, 2, 3, 1, 12345, 1235. vm_compute. repeat split; congruence. Qed.
+
+Lemma old_int_to_decimal_scale10_panics : Old.int_to_decimal true (mk_ity true 32) D64 18 10 1 = Panic
+  /\ Old.int_to_decimal false (mk_ity true 32) D64 18 10 1 = Ok 1410065408.
+Proof. vm_compute. split; reflexivity. Qed.
+
+Lemma old_int_to_decimal_min_panics : Old.int_to_decimal true I64 D64 18 0 (- 2 ^ 63) = Panic.
+Proof. vm_compute. reflexivity. Qed.
+
+Lemma old_flatten_unsound :
+  (* before ba9d5049d only the direct cast was required to be Safe *)
+  cast_int (mk_ity true 32) (mk_ity true 64) 70000 = Ok 70000
+  /\ nested_cast (mk_ity true 32) (mk_ity true 16) (mk_ity true 64) 70000 = Err.
+Proof. vm_compute. split; reflexivity. Qed.
